@@ -327,6 +327,52 @@ func runS1(cfg hx.Config, meta *hx.Meta) error {
 	if firstErr != nil {
 		return firstErr
 	}
+	// nested prefixes: the fresh names of plugin 0 (deriveEq, deriveEq_, deriveEq_A, ...) are the
+	// user-spelled names of plugin 1; they only stay apart because every registration is
+	// recorded in the reserved set the typesMaps of a package share
+	{
+		nested := []string{"deriveEq", "deriveEq_"}
+		var opts []Call
+		for p, pre := range nested {
+			for _, n := range []string{pre, pre + "_", pre + "_A"} {
+				for t := range pool {
+					opts = append(opts, Call{p, n, t})
+				}
+			}
+		}
+		c := &Ctx{Pool: pool, Prefixes: nested, Reserved: []string{}}
+		cs := c.Sexp()
+		path := filepath.Join(cfg.Out, "s1-nested.obs")
+		f, err := os.Create(path)
+		if err != nil {
+			return err
+		}
+		w := bufio.NewWriterSize(f, 1<<20)
+		nn := 0
+		var seq []Call
+		var rec func()
+		rec = func() {
+			if len(seq) > 0 {
+				calls := seq
+				fmt.Fprintln(w, Line("pkg", c, cs, calls, func(a, d bool) string { return RunReal(c, a, d, calls) }))
+				nn++
+			}
+			if len(seq) == maxK-1 {
+				return
+			}
+			for _, o := range opts {
+				seq = append(seq, o)
+				rec()
+				seq = seq[:len(seq)-1]
+			}
+		}
+		rec()
+		w.Flush()
+		f.Close()
+		meta.ObsFiles = append(meta.ObsFiles, path)
+		meta.Cases += nn
+		meta.Count(fmt.Sprintf("s1/nested prefixes, sequences<=%d calls=%d", maxK-1, nn))
+	}
 	total := 0
 	for _, c := range counts {
 		total += c
